@@ -1,0 +1,33 @@
+use crate::{
+    archetype::Archetype,
+    registry::Registry,
+    verif::ArchetypeDump,
+};
+use core::slice;
+
+impl<R> Archetype<R>
+where
+    R: Registry,
+{
+    pub(crate) fn verif_dump(&self) -> ArchetypeDump {
+        ArchetypeDump {
+            // SAFETY: The identifier is owned by this archetype.
+            identifier: unsafe { self.identifier.as_slice() }.to_vec(),
+            // SAFETY: The identifier is owned by this archetype.
+            identifier_address: unsafe { self.identifier.as_slice() }.as_ptr() as usize,
+            length: self.length,
+            entity_identifiers:
+                // SAFETY: `self.entity_identifiers` contains `self.length` initialized values.
+                unsafe { slice::from_raw_parts(self.entity_identifiers.0, self.length) }
+                    .iter()
+                    .map(|identifier| (identifier.index, identifier.generation))
+                    .collect(),
+            entity_identifiers_capacity: self.entity_identifiers.1,
+            columns: self
+                .components
+                .iter()
+                .map(|&(pointer, capacity)| (pointer as usize, capacity))
+                .collect(),
+        }
+    }
+}
